@@ -109,18 +109,19 @@ func (c *vCase) request(order []int) string {
 // ---- synthetic go/types world ---------------------------------------------------------
 
 type vWorld struct {
-	c      *vCase
-	pkg    *types.Package
-	named  map[int]*types.Named
-	strID  map[string]int
-	fset   *token.FileSet
-	hasher typeutil.Hasher
-	provs  map[int]*Provider
-	provID map[*Provider]int
-	valID  map[*Value]int
-	fldID  map[*Field]int
-	bndID  map[*IfaceBinding]int
-	setID  map[*ProviderSet]int
+	c       *vCase
+	pkg     *types.Package
+	named   map[int]*types.Named
+	generic *types.Named
+	strID   map[string]int
+	fset    *token.FileSet
+	hasher  typeutil.Hasher
+	provs   map[int]*Provider
+	provID  map[*Provider]int
+	valID   map[*Value]int
+	fldID   map[*Field]int
+	bndID   map[*IfaceBinding]int
+	setID   map[*ProviderSet]int
 }
 
 func newWorld(c *vCase) *vWorld {
@@ -150,9 +151,26 @@ func (w *vWorld) mk(i int) types.Type {
 		return types.NewPointer(w.named[w.c.base[i]])
 	case 2:
 		return types.NewSlice(w.named[w.c.base[i]])
-	default:
+	case 3:
 		return types.NewMap(types.Typ[types.String], w.named[w.c.base[i]])
+	default:
+		// an instance of a generic type: every spelling Box[T] is a *types.Named of its own
+		t, err := types.Instantiate(nil, w.box(), []types.Type{w.named[w.c.base[i]]}, false)
+		if err != nil {
+			panic(err)
+		}
+		return t
 	}
+}
+
+// box is the generic type `type Box[E any] struct{}` of the world's package.
+func (w *vWorld) box() *types.Named {
+	if w.generic == nil {
+		tp := types.NewTypeParam(types.NewTypeName(token.NoPos, w.pkg, "E", nil), types.Universe.Lookup("any").Type())
+		w.generic = types.NewNamed(types.NewTypeName(token.NoPos, w.pkg, "Box", nil), types.NewStruct(nil, nil), nil)
+		w.generic.SetTypeParams([]*types.TypeParam{tp})
+	}
+	return w.generic
 }
 
 func (w *vWorld) order() []int {
@@ -257,12 +275,12 @@ func (w *vWorld) tid(t types.Type) int {
 
 var (
 	rePosPrefix = regexp.MustCompile(`^(?:[^\s:]+:\d+(?::\d+)?: )+`)
-	reMulti    = regexp.MustCompile(`^(?:\S+ has )?multiple bindings for (.*)\ncurrent:`)
-	reBindMiss = regexp.MustCompile(`^wire\.Bind of concrete type "(.*)" to interface "(.*)", but .* does not include a provider for`)
-	reCycle    = regexp.MustCompile(`^cycle for (.*):\n`)
-	reNoProv   = regexp.MustCompile(`^no provider found for ([^\n]*?)(, output of injector)?(?:\n|$)`)
-	reNeeded   = regexp.MustCompile(`\nneeded by (.*?) in `)
-	reUnused   = regexp.MustCompile(`^unused (provider set|provider|value of type|interface binding to type|field) (.*)$`)
+	reMulti     = regexp.MustCompile(`^(?:\S+ has )?multiple bindings for (.*)\ncurrent:`)
+	reBindMiss  = regexp.MustCompile(`^wire\.Bind of concrete type "(.*)" to interface "(.*)", but .* does not include a provider for`)
+	reCycle     = regexp.MustCompile(`^cycle for (.*):\n`)
+	reNoProv    = regexp.MustCompile(`^no provider found for ([^\n]*?)(, output of injector)?(?:\n|$)`)
+	reNeeded    = regexp.MustCompile(`\nneeded by (.*?) in `)
+	reUnused    = regexp.MustCompile(`^unused (provider set|provider|value of type|interface binding to type|field) (.*)$`)
 )
 
 func natsStr(xs []int) string {
@@ -484,7 +502,7 @@ func genTypeKinds(r *rand.Rand, nT int) (kind, base []int) {
 			namedIDs = append(namedIDs, i)
 			continue
 		}
-		k := 1 + r.Intn(3)
+		k := 1 + r.Intn(4)
 		b := namedIDs[r.Intn(len(namedIDs))]
 		if taken[[2]int{k, b}] {
 			namedIDs = append(namedIDs, i)
@@ -935,7 +953,6 @@ func splitVariant(r *rand.Rand, c *vCase) *vCase {
 	d.sets = append(d.sets, keep)
 	return d
 }
-
 
 // runMultiCase: several injectors over the same library sets and the same provider objects, analysed
 // one after the other in one world (as one `wire` run does); each is compared with the model's
